@@ -50,10 +50,18 @@ Definition in_crate (c : str) (s : src_info) : bool :=
 Definition crate_items (ws : list src_info) (c : str) : list ritem :=
   flat_map (fun s => if in_crate c s then si_items s else []) ws.
 
-(* `defines file_crate name`: an annotated item of that crate is generated under that name *)
+(* everything the file of crate c declares, under the generated names *)
 Definition defs_renamed (ws : list src_info) (c : str) : list str := map (fun it => renamed (item_id it)) (crate_items ws c).
-Definition defs_original (ws : list src_info) (c : str) : list str := map (fun it => original (item_id it)) (crate_items ws c).
-Definition defines (ws : list src_info) (c n : str) : bool := mem_str n (defs_renamed ws c).
+
+(* The import clause speaks about TYPES: a struct, an enum or an alias.  A constant is not a type - nothing can
+   refer to it in a type position - so it is neither something a module "defines" for the purpose of an import,
+   nor a target of a reference, nor a local type name (finding C14-glob-const, repaired in /repo). *)
+Definition is_type14 (it : ritem) : bool := match it with ItConst _ => false | _ => true end.
+Definition type_items (ws : list src_info) (c : str) : list ritem := filter is_type14 (crate_items ws c).
+Definition tdefs_renamed (ws : list src_info) (c : str) : list str := map (fun it => renamed (item_id it)) (type_items ws c).
+Definition tdefs_original (ws : list src_info) (c : str) : list str := map (fun it => original (item_id it)) (type_items ws c).
+(* `defines crate name`: an annotated TYPE of that crate is generated under that name *)
+Definition defines (ws : list src_info) (c n : str) : bool := mem_str n (tdefs_renamed ws c).
 
 (* a definition at declaration level: its kind and the names it is defined under *)
 Definition c14_kind (it : ritem) : N := match it with ItStruct _ => 0 | ItEnum _ => 1 | ItAlias _ => 2 | ItConst _ => 3 end.
@@ -139,12 +147,12 @@ Definition type_ok (n : str) : bool :=
   match n with c :: _ => is_aupper c | [] => false end.
 
 (* ---------- one cross-crate reference and its verdict ---------- *)
-(* crates other than c with an annotated item whose ORIGINAL (Rust) name is n *)
+(* crates other than c with an annotated type whose ORIGINAL (Rust) name is n *)
 Definition targets (ws : list src_info) (c n : str) : list str :=
-  filter (fun d => negb (str_eqb d c) && mem_str n (defs_original ws d)) (generated_crates ws).
-(* the name the item of crate d with original name n is generated under *)
+  filter (fun d => negb (str_eqb d c) && mem_str n (tdefs_original ws d)) (generated_crates ws).
+(* the name the type of crate d with original name n is generated under *)
 Definition renamed_in (ws : list src_info) (d n : str) : str :=
-  match find (fun it => str_eqb (original (item_id it)) n) (crate_items ws d) with
+  match find (fun it => str_eqb (original (item_id it)) n) (type_items ws d) with
   | Some it => renamed (item_id it)
   | None => n
   end.
@@ -159,26 +167,41 @@ Definition referenced_crate (ws : list src_info) (s : src_info) (c n : str) : op
             | None => match ts with d :: _ => Some d | [] => None end
             end
   end.
-(* no other crate generates anything called n (as original or as generated name) *)
+(* no other crate generates a type called n (as original or as generated name) *)
 Definition unique_name (ws : list src_info) (d n : str) : bool :=
-  forallb (fun k => str_eqb k d || negb (mem_str n (defs_original ws k) || mem_str n (defs_renamed ws k))) (generated_crates ws).
+  forallb (fun k => str_eqb k d || negb (mem_str n (tdefs_original ws k) || mem_str n (tdefs_renamed ws k))) (generated_crates ws).
 
-(* the domain of the completeness theorem *)
-Definition dom_C14 (ws : list src_info) (mapped : list str) (s : src_info) (c d n : str) : bool :=
+(* The domain of the completeness theorem: the reference of file s (crate c) to the type n of crate d is
+   (a) named: introduced by a plain / grouped / nested `use d::..::n` or a path d::..::n, nothing else in the file
+       brings in n from elsewhere, the target not serde-renamed, its name unique across crates, d and n outside
+       the ignore lists, n not type-mapped and not the generated name of a type of the file itself; or
+   (b) covered by a glob: the file says `use d::*;` or a nested `use d::m::*;` / `use d::{m::*, ..}` with d
+       outside the ignore lists (and `*` itself not a key of the type mappings, which would remove every glob
+       candidate).  Such a glob imports EVERY type of crate d under its generated name, so (b) needs none of
+       the other conditions of (a): the target may be renamed, ambiguous, not unique. *)
+Definition GLOB14 : str := lit "*".
+Definition dom_named (ws : list src_info) (mapped : list str) (s : src_info) (c d n : str) : bool :=
   introduces (si_file s) d n && unambiguous (si_file s) d n &&
   str_eqb (renamed_in ws d n) n && unique_name ws d n &&
   crate_ok d && type_ok n && negb (mem_str n mapped) &&
-  negb (mem_str n (map (fun it => renamed (item_id it)) (si_items s))).
+  negb (mem_str n (map (fun it => renamed (item_id it)) (filter is_type14 (si_items s)))).
+Definition dom_glob (mapped : list str) (s : src_info) (d : str) : bool :=
+  glob_introduces (si_file s) d && crate_ok d && negb (mem_str GLOB14 mapped).
+Definition dom_C14 (ws : list src_info) (mapped : list str) (s : src_info) (c d n : str) : bool :=
+  dom_named ws mapped s c d n || dom_glob mapped s d.
 
-(* finding classes of the unchanged tree for a reference that is NOT imported *)
-Definition known_C14 (ws : list src_info) (s : src_info) (c d n : str) : option string :=
-  if negb (str_eqb (renamed_in ws d n) n) then cls14 "C14-renamed-import"
+(* finding classes of the unchanged tree for a reference that is NOT imported.  A reference covered by a glob
+   import is in no class: since the /repo fix of findings C14-glob / C14-glob-order `use d::*;` imports every
+   type of d (renamed and same-named ones included), so a miss there is a new violation. *)
+Definition known_C14 (ws : list src_info) (mapped : list str) (s : src_info) (c d n : str) : option string :=
+  if dom_glob mapped s d then None
+  else if negb (str_eqb (renamed_in ws d n) n) then cls14 "C14-renamed-import"
   else if negb (unique_name ws d n) then cls14 "C14-same-name"
-  else if negb (introduces (si_file s) d n) && glob_introduces (si_file s) d then cls14 "C14-glob"
   else None.
 
 Record ref_verdict := { rv_crate : str; rv_name : str; rv_from : str; rv_generated_name : str;
-                        rv_imported : bool; rv_elsewhere : list str; rv_dom : bool; rv_known : option string }.
+                        rv_imported : bool; rv_elsewhere : list str; rv_dom : bool; rv_known : option string;
+                        rv_unique : bool (* unique_name: no other crate has a type of that name *) }.
 
 (* every reference of crate c to a type of another generated crate, judged against the OBSERVED
    import list of c's file *)
@@ -186,7 +209,7 @@ Definition judge_crate (ws : list src_info) (mapped : list str) (c : str) (obser
   flat_map (fun s =>
     if in_crate c s then
       flat_map (fun n =>
-        if mem_str n (defs_original ws c) then []       (* defined in the same crate *)
+        if mem_str n (tdefs_original ws c) then []      (* a type of the same crate *)
         else match referenced_crate ws s c n with
              | None => []                                (* not a generated type at all *)
              | Some d =>
@@ -195,17 +218,21 @@ Definition judge_crate (ws : list src_info) (mapped : list str) (c : str) (obser
                    rv_imported := existsb (fun p => str_eqb (fst p) d && str_eqb (snd p) g) observed;
                    rv_elsewhere := map fst (filter (fun p => negb (str_eqb (fst p) d) && str_eqb (snd p) g) observed);
                    rv_dom := dom_C14 ws mapped s c d n;
-                   rv_known := known_C14 ws s c d n |}]
+                   rv_known := known_C14 ws mapped s c d n;
+                   rv_unique := unique_name ws d n |}]
              end) (file_uses mapped s)
     else []) ws.
 
-(* soundness of an observed import list: the pairs that are NOT fine *)
+(* soundness of an observed import list: the pairs that are NOT fine - the module is the importing crate itself,
+   or the name is not the generated name of a TYPE of the module (a const of the module is not: TypeScript does
+   not even export it under that name).  A glob may import types the file never uses: that is sound. *)
 Definition unsound_imports (ws : list src_info) (c : str) (observed : list (str * str)) : list (str * str) :=
   filter (fun p => str_eqb (fst p) c || negb (defines ws (fst p) (snd p))) observed.
 
-(* imports that name a CONST of their module (finding C14-glob-const: an effective glob import lists every name of
-   the crate's type table, consts included, under the generated name - TypeScript writes a const under the
-   SCREAMING_SNAKE_CASE of that name, so the module's file need not define the imported identifier) *)
+(* imports that name a CONST of their module (what finding C14-glob-const was about, repaired in /repo: a glob
+   import listed every name of the crate's type table, consts included, under the generated name, while
+   TypeScript writes a const under the SCREAMING_SNAKE_CASE of that name).  Each of them is unsound (above);
+   kept to name the regression in the check's message. *)
 Definition is_const_of (ws : list src_info) (k n : str) : bool :=
   existsb (fun it => match it with ItConst c => str_eqb (renamed (cid c)) n | _ => false end) (crate_items ws k).
 Definition const_imports (ws : list src_info) (observed : list (str * str)) : list (str * str) :=
